@@ -13,7 +13,7 @@ PROPS = {
     "C11": {
         "suites": ["debruijn"],
         "assumptions": [
-            "model functions sshift/ushift/openT/freeVars are tied to de_bruijn.rs / term.rs::free_variables by the op-level correspondence (exhaustive over all hole-free terms up to a size bound, random beyond), not by proof",
+            "the congruence arms of sshift/openT/freeVars are tied to de_bruijn.rs / term.rs::free_variables by the arm translator extract/arms.py (tables regenerated every run, generic interpretation proved equal to the model: C11_*_arms_tie) and by the op-level correspondence (exhaustive over all hole-free terms up to a size bound, random beyond); the Variable/Unifier arms by CRC pin + correspondence only",
             "the pure model treats a hole as an unresolved unifier; resolved cells are covered by the store layer",
         ],
     },
@@ -36,7 +36,7 @@ PROPS = {
         "suites": ["lexer", "parser"],
         "assumptions": [
             "the two line-break tables and the keyword table are regenerated from tokenizer.rs / token.rs on every run and the table obligations re-decided",
-            "the full render/tokenize law is evaluated on the implementation (search), its unbounded proof is pending",
+            "the full render/tokenize law is proved for the model (C10_render_law) under two extra sanity conditions on the Unicode classifier (`#` and line feed are not identifier characters), which hold of Rust std; it is also evaluated on the implementation (search)",
         ],
     },
     "C01": {
@@ -56,7 +56,7 @@ PROPS = {
                             "the per-nonterminal cache hit/miss counters of the implementation (hook H1) are compared with the model's on every `parsestats` op"]},
     "C03": {"suites": ["pipeline", "programs", "unify"], "assumptions": ["every program the real checker accepts is re-checked by the independent Lean checker inferX on its zonked elaboration (translation validation per program); inferX is proved sound for the declarative rules of Typing.lean on hole-free terms, and the model of gram's checker is proved sound for them on hole-free programs (C03_checker_sound_holefree)", "an unresolved hole is an unknown compatible with anything"]},
     "C04": {"suites": ["programs", "pipeline", "unify"], "assumptions": ["the value of every terminating accepted program is typed by the independent checker and compared with the reported type; preservation is not proved"]},
-    "C06": {"suites": ["programs", "unify", "pipeline"], "assumptions": ["coincidence of conversion with equality of normal forms and closure under reduction need confluence and are not proved; they are decided per program on the implementation"]},
+    "C06": {"suites": ["programs", "unify", "pipeline"], "assumptions": ["coincidence of conversion with joinability, closure under reduction and agreement of normalizer and evaluator on ground results are proved for the model on hole-free terms (Lemmas/ConvCoherence.lean); termination is not, and programs with holes are decided per program on the implementation"]},
     "C15": {"suites": ["listing", "parser", "programs"], "assumptions": ["for type faults the range convention is pinned by experiment per kind of subexpression (programs suite: one generated subexpression of a wrong type at a position whose expected type is known; its byte span in the rendered text is compared with the ranges passed to `listing`, hook H3)", "Unicode whitespace classification is a parameter of the model, supplied per input", "ranges of scoping/type diagnostics are compared through hook H3 (ranges passed to listing) in the parser suite"]},
     "C16": {"suites": ["print", "programs"], "assumptions": ["the printed text is re-read by the real tokenizer and parser (oracle on the implementation); the proof that the printed token list derives the term in grammar.y is pending"]},
     "C19": {"suites": ["programs", "pipeline"], "extra": [c19_step], "assumptions": ["acceptance-invariance of the rewrites is not proved (needs the T3 statements of C06/C12); it is searched: every rewrite kind at random sites of every generated program, outcome compared through the real pipeline"]},
